@@ -2,10 +2,12 @@
    Only ExtrOcamlBasic's directives are used (bool, option, list, prod, unit, sumbool);
    N, positive, nat stay the extracted inductives. *)
 From Coq Require Import Extraction ExtrOcamlBasic.
-From CL Require Import Base SeqModel Spec.
+From CL Require Import Base SeqModel Spec Wrapper.
 Extraction Blacklist List String.
 
 Extraction "../build/extract/model.ml"
   init step wf_state wf_cfg
   c01_step c04_step c05_step c06_step c07_step c08_step c13_step c15_step
-  ghost_step check_trace first_fail removed entry_eqb.
+  ghost_step check_trace first_fail removed entry_eqb
+  call enc dec world_call invalidate_by invalidate_cache invalidate_with invalidate_all_with
+  stats_get stats_reset clear_registered cond_registered.
